@@ -675,6 +675,134 @@ def compare_signature(cls: t.Any, ordered: t.List[t.Tuple[str, t.Dict[str, t.Any
     return None
 
 
+# ---- arguments which are equal without being the same type ---------------------------------------------------------------
+#
+# Literal[1] and Literal[True] (0 and False) are different types - typing itself keeps them apart - although 1 == True.  Subscripting
+# with one after the other substitutes *that* argument, in either order, directly and through a further level of inheritance.
+
+LIT_PAIRS = [(1, True), (True, 1), (0, False), (False, 0), (1, 1), ('1', 1)]
+
+
+def literal_cases(shard: int, nshards: int) -> t.Iterator[t.Any]:
+    i = 0
+    for pi in range(len(LIT_PAIRS)):
+        for depth in ('direct', 'inherited', 'nested'):
+            if i % nshards == shard:
+                yield [pi, depth]
+            i += 1
+
+
+def check_literals(case: t.Any, ctx: Ctx) -> None:
+    import inspect
+    import pane
+    import types as _types
+    (pi, depth) = case
+    (a, b) = LIT_PAIRS[pi]
+    ctx.label(f"literal-arguments:{depth}")
+    ctx.nontrivial(type(a) is not type(b))
+    G = _types.new_class('LitBox', (pane.PaneBase, t.Generic[T]), {}, lambda ns: ns.update({'__annotations__': {'v': T, 'w': t.List[T]}}))
+    if depth == 'inherited':
+        G = _types.new_class('LitBoxSub', (G[T],), {}, lambda ns: ns.update({'__annotations__': {'extra': int}, 'extra': 0}))
+    seen = []
+    for x in (a, b):
+        arg = t.Literal[x] if depth != 'nested' else t.Optional[t.Literal[x]]      # type: ignore[valid-type]
+        ctx.evaluated()
+        try:
+            C = G[arg]
+            ann = {f.name: f.type for f in C.__pane_info__.fields}
+        except Exception as e:
+            ctx.fail('substitution', f"literal-argument:{type(e).__name__}", f"LitBox[{arg}] raised {type(e).__name__}: {str(e)[:150]}")
+            return
+        want = {'v': arg, 'w': t.List[arg]}
+        got = {k: ann.get(k) for k in want}
+        inner = {'v': got['v'], 'w': (t.get_args(got['w']) or (None,))[0] if t.get_origin(got['w']) is list else None}
+        # (typing's == tells Literal[1] from Literal[True]; repr does too)
+        if any(x != arg or repr(x) != repr(arg) for x in inner.values()):
+            ctx.fail('substitution', 'literal-argument-of-equal-value', f"{G.__name__}[{arg}] (asked for after {[repr(s) for s in seen]}) has fields {got}, wanted {want}; "
+                     f"signature {inspect.signature(C)}")
+            return
+        seen.append(arg)
+
+
+# ---- unions that shrink when the argument is already a member -------------------------------------------------------------------------
+#
+# value: Union[int, str, T] with T := int is Union[int, str]: substitution, then de-duplication, through any depth - no type variable
+# stays behind, whichever members the argument repeats, and conversion enforces what is left.
+
+UF_ARGS = {'int': int, 'str': str, 'float': float, 'bool': bool, 'Union[str, int]': t.Union[str, int], 'Union[float, int]': t.Union[float, int], 'NoneType': type(None)}
+UF_SHAPES = ['Union[int, str, T]', 'Union[T, int, str]', 'List[Union[bool, float, T, U]]', 'Optional[Union[int, T]]', 'Dict[str, Union[int, str, T]]']
+
+
+def uf_cases(shard: int, nshards: int) -> t.Iterator[t.Any]:
+    i = 0
+    for sh in range(len(UF_SHAPES)):
+        for a in UF_ARGS:
+            for b in (['-'] if 'U' not in UF_SHAPES[sh].replace('Union', '') else list(UF_ARGS)):
+                for how in ('subscript', 'inherit'):
+                    if i % nshards == shard:
+                        yield [sh, a, b, how]
+                    i += 1
+
+
+def check_union_fields(case: t.Any, ctx: Ctx) -> None:
+    import pane
+    import types as _types
+    from pane.util import flatten_union_args
+    (sh, a, b, how) = case
+    shape = UF_SHAPES[sh]
+    (A, B) = (UF_ARGS[a], UF_ARGS.get(b))
+    members = {'Union[int, str, T]': [int, str, T], 'Union[T, int, str]': [T, int, str], 'List[Union[bool, float, T, U]]': [bool, float, T, U],
+               'Optional[Union[int, T]]': [int, T, type(None)], 'Dict[str, Union[int, str, T]]': [int, str, T]}[shape]
+    inner = t.Union[tuple(members)]     # type: ignore
+    ftype = {'Union[int, str, T]': inner, 'Union[T, int, str]': inner, 'List[Union[bool, float, T, U]]': list[inner], 'Optional[Union[int, T]]': inner,
+             'Dict[str, Union[int, str, T]]': dict[str, inner]}[shape]
+    two = U in members
+    G = _types.new_class('Setting', (pane.PaneBase, t.Generic[(T, U) if two else (T,)]), {}, lambda ns: ns.update({'__annotations__': {'name': str, 'value': ftype}}))  # type: ignore
+    args = (A, B) if two else (A,)
+    ctx.label(f"union-fields:{how}")
+    ctx.nontrivial(True)
+    ctx.evaluated()
+    try:
+        C = G[args if two else A]
+        if how == 'inherit':
+            C = _types.new_class('Derived', (C,), {}, lambda ns: ns.update({'__annotations__': {'unit': str}, 'unit': ''}))
+    except Exception as e:
+        ctx.fail('substitution', f"union-field:{type(e).__name__}", f"Setting(value: {shape})[{a}{', ' + b if two else ''}] raised {type(e).__name__}: {str(e)[:150]}")
+        return
+    env = {T: A, U: B}
+    want: t.List[t.Any] = []
+    for m in flatten_union_args([env.get(m, m) for m in members]):
+        if m not in want:
+            want.append(m)
+    got_t = {f.name: f.type for f in C.__pane_info__.fields}['value']
+    got_inner = got_t if shape.startswith(('Union', 'Optional')) else t.get_args(got_t)[-1]
+    got = list(t.get_args(got_inner)) if t.get_origin(got_inner) is t.Union else [got_inner]
+    ident = f"class Setting(name: str, value: {shape}); {'class Derived(' if how == 'inherit' else ''}Setting[{a}{', ' + b if two else ''}]{')' if how == 'inherit' else ''}"
+    if got != want:
+        ctx.fail('substitution', 'union-field-members', f"{ident}: field value is {got_t!r}; members {got}, wanted {want}")
+        return
+    # enforcement: one probe per candidate kind
+    probes = [(5, int), ('s', str), (2.5, float), (True, bool), (None, type(None)), ([1], list)]
+    for (pv_, kind) in probes:
+        ok_want = kind in want or (kind is int and (float in want) and int not in want and False)
+        if kind is int and int not in want and float in want:
+            continue        # (int widens to float: accepted, as 5.0)
+        if kind is bool and bool not in want and (int in want or float in want):
+            continue        # (bool given to a numeric target: unspecified)
+        data = {'Union[int, str, T]': pv_, 'Union[T, int, str]': pv_, 'List[Union[bool, float, T, U]]': [pv_], 'Optional[Union[int, T]]': pv_,
+                'Dict[str, Union[int, str, T]]': {'k': pv_}}[shape]
+        ctx.evaluated()
+        (k, r) = outcome(lambda: C.from_data({'name': 'n', 'value': data}))
+        if k == 'exc' or (k == 'ok') != ok_want:
+            ctx.fail('enforcement', 'union-field', f"{ident}: value {data!r} {'accepted' if k == 'ok' else 'refused' if k == 'ce' else 'raised ' + type(r).__name__}; "
+                     f"the members are {want}")
+            return
+
+
 def suites(tier: str) -> t.List[Suite]:
     big = tier == 'thorough'
-    return [Suite('hierarchy', check, strategy=programs, examples=6000 if big else 500, budget_s=480 if big else 40, render=render)]
+    return [Suite('hierarchy', check, strategy=programs, examples=6000 if big else 500, budget_s=480 if big else 40, render=render),
+            Suite('union-fields', check_union_fields, cases=uf_cases, exhaustive=True, budget_s=60,
+                  render=lambda c: {'field type': UF_SHAPES[c[0]], 'T': c[1], 'U': c[2], 'how': c[3]}),
+            Suite('literal-arguments', check_literals, cases=literal_cases, exhaustive=True, budget_s=30,
+                  render=lambda c: {'literal arguments, in this order': list(LIT_PAIRS[c[0]]), 'how': c[1]})]
